@@ -13,6 +13,7 @@ import (
 	"fmt"
 	"io"
 	"log"
+	"math"
 	"net"
 	"os"
 	"path/filepath"
@@ -2639,8 +2640,23 @@ func (s *Store) fsmSnapshot() (fSnap raft.FSMSnapshot, retErr error) {
 		s.numSnapshots.Add(1)
 	}()
 
+	// The clean-snapshot fingerprint vouches that the database file holds exactly
+	// the state of the newest snapshot in the Snapshot Store. It must therefore
+	// not be written before that snapshot is installed, and Raft closes the sink
+	// -- which installs the snapshot -- only after Persist has returned. A crash
+	// in between would leave a marker matching a database file that is ahead of
+	// the newest installed snapshot, and the next start would skip the restore
+	// and re-apply the log entries written since the previous snapshot. So note
+	// the newest installed index now, and write the fingerprint when Raft releases
+	// the FSM snapshot, if a newer snapshot has been installed by then.
+	var prevSnapIdx uint64
+	if metas, err := s.snapshotStore.List(); err != nil {
+		prevSnapIdx = math.MaxUint64 // Unknown, so never mark the database clean for this snapshot.
+	} else if len(metas) > 0 {
+		prevSnapIdx = metas[0].Index
+	}
+
 	var fsmSnapshot raft.FSMSnapshot
-	finalizer := s.createSnapshotFingerprint
 	if dueNext.IsFull() {
 		// We need to start the snapshoting process over again, starting with a full copy of the SQLite
 		// database. This happens when a node is snapshotting for the very first time, or in certain
@@ -2735,8 +2751,16 @@ func (s *Store) fsmSnapshot() (fSnap raft.FSMSnapshot, retErr error) {
 	fs := FSMSnapshot{
 		Type:        dueNext,
 		FSMSnapshot: fsmSnapshot,
-		Finalizer:   finalizer,
 		OnRelease: func(invoked, succeeded bool) {
+			if invoked && succeeded {
+				// Persisted, and Raft has closed the sink by now. Only vouch for the
+				// database file if the snapshot really made it into the Snapshot Store.
+				if li, _, err := snapshot.LatestIndexTerm(s.snapshotDir); err != nil || li <= prevSnapIdx {
+					s.logger.Printf("%s snapshot persisted but not installed, not marking database as clean", dueNext)
+				} else if err := s.createSnapshotFingerprint(); err != nil {
+					s.logger.Printf("failed to create snapshot fingerprint: %s", err)
+				}
+			}
 			if !invoked {
 				s.logger.Printf("persisting %s snapshot was not invoked on node ID %s", dueNext, s.raftID)
 				// The WAL staging directory, if it has anything, will not have changed, so the WAL files
